@@ -327,6 +327,12 @@ def revalidate(ctx: Any) -> List[Ob]:
                         bad.append(tuple(seq))
                         break
         obs.append(ob(R, f, gen[0], f'{n}: after each wait the task checks that the service is still registered before it transmits the records with their normal TTL', bool(oc) and not bad, f'effect sequence {bad[0]}: an announcement can follow the goodbyes of a service unregistered while the task slept' if bad else ''))
+        # the re-check is about THIS service object: the entry found under the name is compared with it by identity (the name
+        # may have been registered again by another object -- a restart on a new port -- whose own task announces it)
+        info_p = next((p_ for p_ in f.params[1:] if p_ in {norm(c.args[0]) for c in gen if c.args}), None)
+        cmps = [t for t in walk_local_ordered(f.node) if isinstance(t, ast.Compare) and any(isinstance(x, ast.Attribute) and self_attr(x, me) == 'registry' for x in ast.walk(t))]
+        ident = [t for t in cmps if len(t.ops) == 1 and isinstance(t.ops[0], (ast.Is, ast.IsNot)) and any(isinstance(x, ast.Name) and x.id == info_p for x in [t.left] + list(t.comparators))]
+        obs.append(ob(R, f, cmps[0] if cmps else gen[0], f'{n}: the registry entry is compared with the service object being announced (`is` / `is not`), not merely tested for presence', bool(ident), '' if ident else 'the guard only tests that SOME service is registered under the name: after a re-registration by another object the old task keeps announcing the withdrawn records'))
     if not obs:
         raise AnalysisError('anchor vanished: coroutine that broadcasts a service')
     return obs
